@@ -39,6 +39,11 @@ def showMsg (m : Msg) (consumed : Nat) : String :=
   s!"sender={showStrField m.fields 7} sig={showStrField m.fields 8} fds={showNatField m.fields 9} " ++
   s!"ci={showStrField m.fields 10} body={",".intercalate (m.body.map showVal)}"
 
+/-- `showMsg` plus the codes of unknown header fields, in wire order (the bus must not forward any) -/
+def showMsgX (m : Msg) (consumed : Nat) : String :=
+  let uk := (m.fields.filter (fun f => decide (f.code > FIELD_LAST))).map (fun f => toString f.code)
+  showMsg m consumed ++ s!" uk={if uk.isEmpty then "-" else ",".intercalate uk}"
+
 def showLoad : LoadResult → String
   | .incomplete => "incomplete"
   | .corrupt => "corrupt"
@@ -54,6 +59,14 @@ partial def loadAll (maxLen fds : Nat) (bs : Bytes) (acc : List (Msg × Nat)) : 
 
 def wireCmd (toks : List String) : String :=
   match toks with
+  | ["demarshalx", hex] =>
+    match ofHex hex with
+    | some bs =>
+      match loadOne true MAX_MESSAGE_LENGTH 64 bs with
+      | .ok m n => showMsgX m n
+      | .corrupt => "corrupt"
+      | .incomplete => "incomplete"
+    | none => "bad-op"
   | ["demarshal", hex] =>
     match ofHex hex with
     | some bs =>
